@@ -477,6 +477,13 @@ def run_program(program, formatters=None, reporters=None, features=None, config=
             for s in steps:
                 if s.get("cl") or s.get("emit") or s.get("acts") or s.get("sub"):
                     plan.step_info[s["uid"]] = s
+                # sub-steps that execute steps themselves (execute_steps() nested two levels deep)
+                pending_subs = list(s.get("sub") or [])
+                while pending_subs:
+                    sub = pending_subs.pop()
+                    if sub.get("sub"):
+                        plan.step_info[sub["uid"]] = sub
+                        pending_subs.extend(sub["sub"])
     if config is None:
         config = make_config(program.get("cfg") or {})
     texts = None
